@@ -31,6 +31,9 @@ func routeByOp(op int, toks []Tok) Outcome {
 		panic("no runner for opcode")
 	}
 	o := registry[id].Run(op, toks)
+	if currentProp == "C09" && o.Fail == "" {
+		o.Fail = zeroAllocationProbe(toks)
+	}
 	if o.Fail != "" && !ownClause(currentProp, o.Fail) {
 		// the runner of another property judged a clause of ITS property (a partition index, an aggregation rule, a
 		// fragment size ...): under this property only its own clauses count; the correspondence still sees the case
@@ -38,6 +41,51 @@ func routeByOp(op int, toks []Tok) Outcome {
 		o.Fail = ""
 	}
 	return o
+}
+
+// zeroAllocationProbe: the same payloads once more through every depacketizer that has the zero-allocation switch,
+// with the switch on (a reduced mode the model does not describe: H264Packet hands the payload back untouched) -
+// C09's first clause, "return without panicking, however the calls are interleaved", holds there too
+func zeroAllocationProbe(toks []Tok) string {
+	var ps [][]byte
+	for _, t := range toks {
+		if l, ok := t.(TList); ok {
+			for _, x := range l {
+				switch x.(type) {
+				case TBytes, TNil:
+					ps = append(ps, tokBytes(x))
+				}
+			}
+		}
+	}
+	if len(ps) == 0 {
+		return ""
+	}
+	type dep interface {
+		Unmarshal([]byte) ([]byte, error)
+		IsPartitionHead([]byte) bool
+		IsPartitionTail(bool, []byte) bool
+		SetZeroAllocation(bool)
+	}
+	h5 := &codecs.H265Packet{}
+	for name, d := range map[string]dep{"H264Packet": &codecs.H264Packet{}, "H264Packet (AVC)": &codecs.H264Packet{IsAVC: true},
+		"H265Packet": h5, "VP8Packet": &codecs.VP8Packet{}, "VP9Packet": &codecs.VP9Packet{}, "AV1Depacketizer": &codecs.AV1Depacketizer{}} {
+		d.SetZeroAllocation(true)
+		for i, p := range ps {
+			in := append([]byte(nil), p...)
+			if p == nil {
+				in = nil
+			}
+			if pn, what := catch(func() {
+				_ = d.IsPartitionHead(in)
+				_, _ = d.Unmarshal(in)
+				_ = d.IsPartitionTail(i%2 == 0, in)
+			}); pn {
+				return fmt.Sprintf("%s in zero-allocation mode: panic on payload %d (%x): %s", name, i, p, what)
+			}
+		}
+	}
+	return ""
 }
 
 // ownClause: is the failure one of the clauses the property under check states?  C08: no panic, at most MTU
